@@ -129,14 +129,14 @@ def check(run):
     C01.native_branchy(run, "C08")
     # the FILTER with CSE on and off: every Jacobian, prediction and update of a stateful sequence against the exact oracle
     ff = 0
-    for linear, cse in ((True, True), (True, False), (False, True), (False, False)):
+    for linear, cse, magnitude in ((True, True, False), (True, False, False), (False, True, False), (False, False, False), (False, True, True), (False, False, True)):
         run.native_runs += 1
-        problems, fsc = kalman.native_sequence(run.seed, linear=linear, k_edit=3.0, cse=cse)
+        problems, fsc = kalman.native_sequence(run.seed, linear=linear, k_edit=3.0, cse=cse, magnitude=magnitude)
         if problems:
             ff += 1
-            run.findings.append(Finding("C08.py.native_filter_sequence", f"cse={cse}", f"{'linear' if linear else 'generic'} filter compiled with CSE {'on' if cse else 'off'}: {problems[0]}", {"language": "python", "inputs": {"shape": [3, 1, 2], "seed": run.seed, "filter_sequence": True, "cse": cse, "linear": linear}, "model_definition": fsc.describe(), "oracle_verdict": problems[:4]}, True))
+            run.findings.append(Finding("C08.py.native_filter_sequence", f"cse={cse}", f"{'linear' if linear else 'generic'} filter{' with |v| terms on symbols without assumptions' if magnitude else ''} compiled with CSE {'on' if cse else 'off'}: {problems[0]}", {"language": "python", "inputs": {"shape": [3, 1, 2], "seed": run.seed, "filter_sequence": True, "cse": cse, "linear": linear, "magnitude": magnitude}, "model_definition": fsc.describe(), "oracle_verdict": problems[:4]}, True))
             break
-    run.bounded.append({"what": "the compiled FILTER with CSE on and with CSE off: Jacobians, predictions (also chained) and sensor updates of one stateful sequence, each against the exact oracle", "bound": "2 models (linear, generic) x 2 CSE settings", "failures": ff, "counted_as_proved": False})
+    run.bounded.append({"what": "the compiled FILTER with CSE on and with CSE off: Jacobians, predictions (also chained) and sensor updates of one stateful sequence, each against the exact oracle", "bound": "3 models (linear, generic, generic with |v| terms whose derivative must not be handed to CSE unevaluated) x 2 CSE settings", "failures": ff, "counted_as_proved": False})
     run.bounded.append({"what": "compiled python model with nested shared sub-expressions: CSE on vs off vs exact sympy, four calls on the same compiled object (a point, two nearby points, the first point again)", "bound": f"{len(shapes)} programs", "failures": fails, "counted_as_proved": False})
     try:
         from checks import cxx_generated
@@ -160,7 +160,7 @@ def replay_file(payload):
     if inp.get("filter_sequence"):
         from replay import kalman
 
-        problems, _ = kalman.native_sequence(inp.get("seed", 0), linear=inp.get("linear", False), k_edit=3.0, cse=inp.get("cse"))
+        problems, _ = kalman.native_sequence(inp.get("seed", 0), linear=inp.get("linear", False), k_edit=3.0, cse=inp.get("cse"), magnitude=inp.get("magnitude", False))
         print("replay C08 (filter sequence):", problems[:3] or "as specified")
         return not problems
     if inp.get("branchy") or inp.get("passthrough") or inp.get("rename"):
